@@ -528,6 +528,85 @@ where
     }
 }
 
+#[cfg(feature = "verif")]
+impl<K, V> SkipList<K, V>
+where
+    K: Clone + Ord + Debug + std::hash::Hash + Eq,
+    V: Clone + PartialOrd + Debug,
+{
+    /// Walk all levels under the list's own lock and report every structural
+    /// disagreement (empty result = consistent).
+    pub fn verif_check_invariants(&self) -> Vec<String> {
+        let inner = self.inner.read().unwrap();
+        let mut out = Vec::new();
+        let limit = inner.length + inner.key_index.len() + 8;
+        unsafe {
+            // Level 0: strictly ascending, agrees with the index and the length
+            let mut chain: Vec<*mut SkipListNode<K, V>> = Vec::new();
+            let mut current = inner.head;
+            while let Some(next) = (&(*current).forward)[0] {
+                if chain.len() > limit {
+                    out.push("level-0 chain longer than length and index allow (cycle?)".to_string());
+                    return out;
+                }
+                chain.push(next);
+                current = next;
+            }
+            for w in chain.windows(2) {
+                let (a, b) = (w[0], w[1]);
+                if self.compare_nodes(&(*a).value, &(*a).key, &(*b).value, &(*b).key) != Ordering::Less {
+                    out.push(format!("level-0 order broken: {:?}/{:?} before {:?}/{:?}", (*a).key, (*a).value, (*b).key, (*b).value));
+                }
+            }
+            if chain.len() != inner.length {
+                out.push(format!("length {} but level-0 chain has {} nodes", inner.length, chain.len()));
+            }
+            if chain.len() != inner.key_index.len() {
+                out.push(format!("index has {} members but level-0 chain has {} nodes", inner.key_index.len(), chain.len()));
+            }
+            for &n in &chain {
+                if self.is_nan(&(*n).value) {
+                    out.push(format!("NaN score stored for {:?}", (*n).key));
+                }
+                match inner.key_index.get(&(*n).key) {
+                    Some(v) if v.partial_cmp(&(*n).value) == Some(Ordering::Equal) => {}
+                    Some(v) => out.push(format!("member {:?}: chain score {:?} but index score {:?}", (*n).key, (*n).value, v)),
+                    None => out.push(format!("member {:?} in chain but not in index", (*n).key)),
+                }
+            }
+            let live: std::collections::HashSet<usize> = chain.iter().map(|p| *p as usize).collect();
+            // Higher levels: each is a subsequence of level 0, in the same order,
+            // and contains exactly the nodes tall enough to be on it
+            for lvl in 1..MAX_LEVEL {
+                let mut nodes: Vec<*mut SkipListNode<K, V>> = Vec::new();
+                let mut current = inner.head;
+                while let Some(next) = (&(*current).forward).get(lvl).cloned().flatten() {
+                    if nodes.len() > limit {
+                        out.push(format!("level-{} chain has a cycle", lvl));
+                        return out;
+                    }
+                    if !live.contains(&(next as usize)) {
+                        // Not a live node: do not dereference it
+                        out.push(format!("level {} links a node that is not in the level-0 chain (dangling pointer)", lvl));
+                        break;
+                    }
+                    nodes.push(next);
+                    current = next;
+                }
+                if lvl > inner.level && !nodes.is_empty() {
+                    out.push(format!("level {} is populated above list level {}", lvl, inner.level));
+                }
+                let expected: Vec<*mut SkipListNode<K, V>> = chain.iter().cloned()
+                    .filter(|&n| (*n).forward.len() > lvl).collect();
+                if nodes != expected {
+                    out.push(format!("level {} links {} nodes but {} level-0 nodes are that tall (dangling or missing link)", lvl, nodes.len(), expected.len()));
+                }
+            }
+        }
+        out
+    }
+}
+
 impl<K, V> Drop for SkipList<K, V> {
     fn drop(&mut self) {
         if let Ok(inner) = Arc::try_unwrap(self.inner.clone()) {
